@@ -53,6 +53,11 @@ pub struct MockIo {
     pub read_marks: Vec<(usize, bool)>,
     pub flushed_upto: usize,
     pub wakes_requested: usize,
+    /// replay mode: one script for poll_write and poll_flush together, in call order, as recorded in
+    /// `wevents` (`a<n>` / `p` / `f`); takes precedence over `wscript` / `fscript`
+    pub unified: Option<VecDeque<String>>,
+    /// replay mode: the implementation made a write-side call that does not fit the recorded event
+    pub diverged: bool,
 }
 
 impl MockIo {
@@ -121,7 +126,19 @@ impl AsyncWrite for MockIo {
     fn poll_write(mut self: Pin<&mut Self>, cx: &mut Context<'_>, data: &[u8]) -> Poll<std::io::Result<usize>> {
         let me = &mut *self;
         me.calls.push('w');
-        let dir = me.wscript.pop_front().unwrap_or(WDir::Acc(usize::MAX));
+        let dir = if let Some(u) = me.unified.as_mut() {
+            match u.pop_front() {
+                Some(ev) if ev.starts_with('a') => WDir::Acc(ev[1..].parse().unwrap_or(usize::MAX)),
+                Some(ev) if ev == "p" => WDir::Pending,
+                Some(_) => {
+                    me.diverged = true;
+                    WDir::Acc(usize::MAX)
+                }
+                None => WDir::Acc(usize::MAX),
+            }
+        } else {
+            me.wscript.pop_front().unwrap_or(WDir::Acc(usize::MAX))
+        };
         match dir {
             WDir::Pending | WDir::PendingWake => {
                 if let WDir::PendingWake = dir {
@@ -143,7 +160,19 @@ impl AsyncWrite for MockIo {
     fn poll_flush(mut self: Pin<&mut Self>, cx: &mut Context<'_>) -> Poll<std::io::Result<()>> {
         let me = &mut *self;
         me.calls.push('f');
-        let dir = me.fscript.pop_front().unwrap_or(FDir::Ok);
+        let dir = if let Some(u) = me.unified.as_mut() {
+            match u.pop_front() {
+                Some(ev) if ev == "f" => FDir::Ok,
+                Some(ev) if ev == "p" => FDir::Pending,
+                Some(_) => {
+                    me.diverged = true;
+                    FDir::Ok
+                }
+                None => FDir::Ok,
+            }
+        } else {
+            me.fscript.pop_front().unwrap_or(FDir::Ok)
+        };
         match dir {
             FDir::Pending | FDir::PendingWake => {
                 if let FDir::PendingWake = dir {
